@@ -5,13 +5,13 @@ from ..world import Session, is_contextual
 
 ID = "C08"
 LEVEL = "exploration"
-QUICK_RUNS = 800
+QUICK_RUNS = 3200
 RULE = ("Each run: drawn policy combination, arm label type and n_jobs/backend; a history interleaving add_arm / "
         "remove_arm / fit / partial_fit / warm_start (arm changes before the first fit included) with restarts "
         "(pickle / deepcopy) mixed in; after EVERY step the bandit is queried (m = 1, m > 1, context-free bandits with "
         "and without contexts) under a seeded schedule with random partitions and the arm-set / shape invariants are "
         "checked against a trivial model of the arm list.")
-EXPECTED_PROBES = ["probe.arm_change_before_first_fit", "probe.query_right_after_add", "probe.query_right_after_remove",
+EXPECTED_PROBES = ["fault.sibling_arm_change", "probe.arm_change_before_first_fit", "probe.query_right_after_add", "probe.query_right_after_remove",
                    "fault.restart", "fault.partition_random"]
 
 
@@ -42,12 +42,28 @@ def generate(rnd, tier, index=0):
         m = rnd.choice([1, 1, 2, 3, 7])
         op["probe"] = {"Q": gen.gen_Q(rnd, m, d if ctxl else rnd.randint(1, 2), regime) if (ctxl or rnd.random() < 0.5)
                        else None, "sched": kernel.Sched.draw(rnd)}
-    return {"cfg": cfg, "regime": regime, "ops": ops}
+    sibling = rnd.random() < 0.5
+    if sibling:
+        # a second bandit built from the SAME arms list object changes its own arms at drawn points
+        extra = {int: [101, 102, 103], str: ["zz", "yyy", "x"], float: [101.5, 102.5, 103.5]}[type(cfg["arms"][0])]
+        for i in sorted((rnd.randrange(len(ops) + 1) for _ in range(rnd.randint(1, 3))), reverse=True):
+            ops.insert(i, {"op": "sibling", "do": rnd.choice(["add", "add", "remove"]), "arm": rnd.choice(extra),
+                           "probe": {"Q": gen.gen_Q(rnd, 2, d if ctxl else 1, regime) if ctxl else None,
+                                     "sched": kernel.Sched.draw(rnd)}})
+    return {"cfg": cfg, "regime": regime, "ops": ops, "sibling": sibling}
 
 
 def execute(case, ctx):
+    from mabwiser.mab import MAB
+    from ..world import make_lp, make_np
     cfg = case["cfg"]
-    P = Session(cfg)
+    arms_obj = list(cfg["arms"])
+
+    def build():
+        return MAB(arms_obj, make_lp(cfg["lp"]), make_np(cfg["np"]), seed=cfg["seed"], n_jobs=cfg["n_jobs"],
+                   backend=cfg["backend"])
+    P = Session(cfg, mab=build())
+    S = build() if case.get("sibling") else None
     model_arms = list(cfg["arms"])
     for step, op in enumerate(case["ops"]):
         kind = op["op"]
@@ -55,7 +71,20 @@ def execute(case, ctx):
         ctx.fired("ops")
         if kind in ("add_arm", "remove_arm") and not P.fitted:
             ctx.fired("probe.arm_change_before_first_fit")
-        r = P.apply(op)
+        if kind == "sibling":
+            if S is not None:
+                try:
+                    if op["do"] == "add" and op["arm"] not in S.arms:
+                        S.add_arm(op["arm"])
+                        ctx.fired("fault.sibling_arm_change")
+                    elif op["do"] == "remove" and len(S.arms) > 2:
+                        S.remove_arm(S.arms[-1])
+                        ctx.fired("fault.sibling_arm_change")
+                except Exception:
+                    pass
+            r = ("ok", None)
+        else:
+            r = P.apply(op)
         if r[0] == "ok":
             if kind == "add_arm":
                 model_arms.append(op["arm"])
